@@ -31,8 +31,8 @@ from .realeval import ev, close
 from .c15 import write_nl, snapshot, _Sink
 
 INVS = {
-    "s2": ["InvS2ContribExact", "InvS2ContribSymmetric", "InvS2ClassConsistent", "InvS2EdgeFamily"],
-    "tetra": ["InvTeRegularIsPerfect", "InvTeFourAreNearest", "InvTeDiamond"],
+    "s2": ["InvS2ContribExact", "InvS2ContribSymmetric", "InvS2ClassConsistent", "InvS2EdgeFamily", "InvFastImage"],
+    "tetra": ["InvTeRegularIsPerfect", "InvTeFourAreNearest", "InvTeDiamond", "InvFastImage"],
     "nematic": ["InvNmSymTraceless", "InvNmTraceEqualsEig", "InvNmRawIsOne", "InvNmInUnitRange", "InvNmUnitVectors"],
     "gyr": ["InvGyKappaIdentity", "InvGyRanges", "InvGyShiftInvariant", "InvGyRotatedEigen", "InvGyAxisKinds"],
 }
